@@ -64,9 +64,9 @@ mod verif_native {
             hc.emit_frames(1, 100, 400, 0, &mut sink);
             tx.send(sink.0).unwrap();
         });
-        match rx.recv_timeout(std::time::Duration::from_secs(5)) {
+        match rx.recv_timeout(std::time::Duration::from_secs(60)) {
             Ok(n) => println!("returned after {} frames", n),
-            Err(_) => panic!("HANG: emit_frames did not return within 5 s"),
+            Err(_) => panic!("HANG: emit_frames did not return within 60 s"),
         }
     }
 
